@@ -51,6 +51,10 @@ var arithFns = []arithFn{
 	{"location.go", "", "rangeOverlap", "rangeOverlap", false},
 	{"seqio/origin.go", "", "toOriginLength", "toOriginLength", false},
 	{"seqio/origin.go", "", "fromOriginLength", "fromOriginLength", false},
+	{"location.go", "Between", "span", "betweenSpan", false},
+	{"location.go", "Point", "span", "pointSpan", false},
+	{"location.go", "Ranged", "span", "rangedSpan", false},
+	{"location.go", "Ambiguous", "span", "ambiguousSpan", false},
 	{"location.go", "Between", "Expand", "betweenExpand", false},
 	{"location.go", "Between", "Shift", "betweenShift", false},
 	{"location.go", "Between", "Reverse", "betweenReverse", false},
@@ -83,6 +87,8 @@ var structFields = map[string][]string{
 	"HeadTail": {"E0:int", "E1:int"},
 	"HeadHead": {"E0:int", "E1:int"},
 	"TailTail": {"E0:int", "E1:int"},
+	// region.go `type Segment [2]int` (read through Unpack or s[0] / s[1])
+	"Segment": {"E0:int", "E1:int"},
 }
 
 var partialConsts = map[string][2]string{
@@ -103,12 +109,27 @@ type env struct {
 	fns     map[string]arithFn
 	self    *arithFn // the function being translated (for self calls)
 	recvVar string   // name of its receiver variable
+	// extensions used by region.go only (nil / false in every other generator: nothing they generate changes)
+	ext    func(e *env, stmts []ast.Stmt, k func(en *env) string) (string, bool) // statements beyond the straight-line subset
+	bitops bool                                                                  // `>>` and `^` on ints (utils.go Abs)
+	seq    map[string]int                                                        // order in which variables were introduced
+	// a `Regions` value is seen as the list of the results of ONE method on its elements
+	// (`rr[k].M()` is dynamic dispatch on the interface Region): the method, the Lean element
+	// type and the value read outside the list (a Go panic)
+	viewM, viewT, viewD string
 }
 
 func (e *env) clone() *env {
-	n := &env{vars: map[string]val{}, results: e.results, fns: e.fns, self: e.self, recvVar: e.recvVar}
+	n := &env{vars: map[string]val{}, results: e.results, fns: e.fns, self: e.self, recvVar: e.recvVar,
+		ext: e.ext, bitops: e.bitops, viewM: e.viewM, viewT: e.viewT, viewD: e.viewD}
 	for k, v := range e.vars {
 		n.vars[k] = v
+	}
+	if e.seq != nil {
+		n.seq = map[string]int{}
+		for k, v := range e.seq {
+			n.seq[k] = v
+		}
 	}
 	return n
 }
@@ -120,7 +141,7 @@ func refuse(format string, a ...interface{}) { panic(refusal{fmt.Sprintf(format,
 // flat returns the scalar leaves of a value in a fixed order
 func flat(v val) []val {
 	switch v.typ {
-	case "int", "bool", "prop", "loc":
+	case "int", "bool", "prop", "loc", "segs", "lens", "elem", "elemval":
 		return []val{v}
 	}
 	var out []val
@@ -248,6 +269,16 @@ func (e *env) expr(x ast.Expr) val {
 			return val{typ: "prop", expr: fmt.Sprintf("(%s ∧ %s)", asProp(l), asProp(r))}
 		case token.LOR:
 			return val{typ: "prop", expr: fmt.Sprintf("(%s ∨ %s)", asProp(l), asProp(r))}
+		case token.SHR, token.XOR:
+			// two's-complement reading on unbounded Int (region.go generator only): `x >> k` is the
+			// arithmetic shift `Int.shiftRight`, `x ^ y` the generated `ixor`
+			if !e.bitops || l.typ != "int" || r.typ != "int" {
+				refuse("binary %s", n.Op)
+			}
+			if n.Op == token.SHR {
+				return val{typ: "int", expr: fmt.Sprintf("(Int.shiftRight %s (Int.toNat %s))", l.expr, r.expr)}
+			}
+			return val{typ: "int", expr: fmt.Sprintf("(ixor %s %s)", l.expr, r.expr)}
 		}
 		refuse("binary %s", n.Op)
 	case *ast.SelectorExpr:
@@ -279,6 +310,30 @@ func (e *env) expr(x ast.Expr) val {
 			v.fields[p[0]] = fv
 		}
 		return v
+	case *ast.IndexExpr:
+		base := e.expr(n.X)
+		if _, pair := base.fields["E0"]; pair && len(base.fields) == 2 {
+			// element of a [2]int value: literal index only
+			lit, ok := n.Index.(*ast.BasicLit)
+			if !ok || lit.Kind != token.INT || (lit.Value != "0" && lit.Value != "1") {
+				refuse("index of a [2]int value is not the literal 0 or 1")
+			}
+			return base.fields["E"+lit.Value]
+		}
+		idx := e.expr(n.Index)
+		if idx.typ != "int" {
+			refuse("index type %s", idx.typ)
+		}
+		switch base.typ {
+		case "segs":
+			// element of a []Segment (outside the list: a Go panic; here the default pair)
+			el := fmt.Sprintf("(%s.getD (Int.toNat %s) default)", base.expr, idx.expr)
+			return val{typ: "Segment", fields: map[string]val{"E0": {typ: "int", expr: el + ".1"}, "E1": {typ: "int", expr: el + ".2"}}}
+		case "lens":
+			// element of a Regions value, of which only the result of the view's method is observable
+			return val{typ: "elem", expr: fmt.Sprintf("(%s.getD (Int.toNat %s) %s)", base.expr, idx.expr, e.viewD)}
+		}
+		refuse("index expression on %s", base.typ)
 	case *ast.CallExpr:
 		return e.call(n)
 	}
@@ -287,6 +342,28 @@ func (e *env) expr(x ast.Expr) val {
 }
 
 func (e *env) call(n *ast.CallExpr) val {
+	if identName(n.Fun) == "make" && e.ext != nil && len(n.Args) == 2 && identName(n.Args[0]) == "Regions" {
+		// `make(Regions, n)`: n nil elements, seen through the view (filled by index below)
+		c := e.expr(n.Args[1])
+		if c.typ != "int" {
+			refuse("make length")
+		}
+		return val{typ: "lens", expr: fmt.Sprintf("(List.replicate (Int.toNat %s) %s)", c.expr, e.viewD)}
+	}
+	if identName(n.Fun) == "make" {
+		// `make([]Segment, 0, cap)`: the empty list (the capacity is not observable)
+		at, ok := n.Args[0].(*ast.ArrayType)
+		if e.ext == nil || len(n.Args) != 3 || !ok || at.Len != nil || identName(at.Elt) != "Segment" {
+			refuse("call of make")
+		}
+		if l, ok := n.Args[1].(*ast.BasicLit); !ok || l.Value != "0" {
+			refuse("make with a length other than the literal 0")
+		}
+		if c := e.expr(n.Args[2]); c.typ != "int" {
+			refuse("make capacity")
+		}
+		return val{typ: "segs", expr: "[]"}
+	}
 	args := make([]val, len(n.Args))
 	for i, a := range n.Args {
 		args[i] = e.expr(a)
@@ -306,6 +383,16 @@ func (e *env) call(n *ast.CallExpr) val {
 		switch f.Name {
 		case "int":
 			return args[0]
+		case "len":
+			if len(args) == 1 && (args[0].typ == "segs" || args[0].typ == "lens") {
+				return val{typ: "int", expr: "(" + args[0].expr + ".length : Int)"}
+			}
+			refuse("len of %s", args[0].typ)
+		case "append":
+			if len(args) == 2 && args[0].typ == "segs" && args[1].typ == "Segment" && !n.Ellipsis.IsValid() {
+				return val{typ: "segs", expr: fmt.Sprintf("(%s ++ [(%s, %s)])", args[0].expr, args[1].fields["E0"].expr, args[1].fields["E1"].expr)}
+			}
+			refuse("append")
 		case "Between":
 			return val{typ: "loc", expr: "(Gts.Loc.between " + ints()[0] + ")"}
 		case "Point":
@@ -343,6 +430,21 @@ func (e *env) call(n *ast.CallExpr) val {
 				}
 			}
 		}
+		if recv.typ == "elem" && f.Sel.Name == e.viewM && len(args) == 0 {
+			// dynamic dispatch `Region.M()` on an element of a Regions value: the element of the view
+			if e.viewT == "Int" {
+				return val{typ: "int", expr: recv.expr}
+			}
+			return val{typ: "elemval", expr: recv.expr}
+		}
+		if f.Sel.Name == "Len" && recv.typ == "lens" && e.viewM == "Len" && len(args) == 0 {
+			// `Regions.Len()`: the generated range loop over the element lengths
+			for _, fn := range e.fns {
+				if fn.recv == "Regions" && fn.name == "Len" {
+					return val{typ: "int", expr: "(" + fn.lean + " " + recv.expr + ")"}
+				}
+			}
+		}
 		if f.Sel.Name == "Len" && recv.typ == "Ranged" && len(args) == 0 {
 			return val{typ: "int", expr: fmt.Sprintf("(%s - %s)", recv.fields["End"].expr, recv.fields["Start"].expr)}
 		}
@@ -373,6 +475,12 @@ func (e *env) assigned(stmts []ast.Stmt, acc map[string]bool, local map[string]b
 				switch x := l.(type) {
 				case *ast.Ident:
 					base = x
+				case *ast.IndexExpr:
+					id, ok := x.X.(*ast.Ident)
+					if !ok {
+						refuse("assignment target")
+					}
+					base = id
 				case *ast.SelectorExpr:
 					for {
 						if id, ok := x.X.(*ast.Ident); ok {
@@ -412,6 +520,20 @@ func (e *env) assigned(stmts []ast.Stmt, acc map[string]bool, local map[string]b
 					inner2[k] = true
 				}
 				e.assigned(b.List, acc, inner2)
+			}
+		case *ast.IncDecStmt:
+			id, ok := n.X.(*ast.Ident)
+			if !ok {
+				refuse("++ / -- on %T", n.X)
+			}
+			if !local[id.Name] {
+				acc[id.Name] = true
+			}
+		case *ast.ExprStmt:
+			// region.go generator: `copy(…)` of the delete-element idiom (the slice it writes is
+			// re-assigned by the statement that follows; checked there)
+			if c, ok := n.X.(*ast.CallExpr); !ok || e.ext == nil || identName(c.Fun) != "copy" {
+				refuse("statement %T inside a conditional block that does not return", s)
 			}
 		default:
 			refuse("statement %T inside a conditional block that does not return", s)
@@ -465,7 +587,7 @@ var leanKeywords = map[string]bool{"end": true, "at": true, "from": true, "in": 
 	"fun": true, "let": true, "have": true, "show": true, "open": true, "local": true, "where": true, "with": true,
 	"match": true, "if": true, "else": true, "by": true, "def": true, "theorem": true, "namespace": true, "section": true}
 
-var leanType = map[string]string{"int": "Int", "bool": "Bool", "loc": "Gts.Loc"}
+var leanType = map[string]string{"int": "Int", "bool": "Bool", "loc": "Gts.Loc", "segs": "List (Int × Int)"}
 
 func (e *env) assign(lhs ast.Expr, v val, lets *[]string) {
 	switch l := lhs.(type) {
@@ -473,11 +595,20 @@ func (e *env) assign(lhs ast.Expr, v val, lets *[]string) {
 		if l.Name == "_" {
 			return
 		}
+		if e.seq != nil {
+			if _, seen := e.seq[l.Name]; !seen {
+				e.seq[l.Name] = len(e.seq)
+			}
+		}
 		if v.fields == nil {
 			if v.typ == "prop" {
 				v = val{typ: "bool", expr: asBool(v)}
 			}
-			*lets = append(*lets, fmt.Sprintf("let %s : %s := %s;", l.Name, leanType[v.typ], v.expr))
+			lt := leanType[v.typ]
+			if v.typ == "lens" {
+				lt = "List " + e.viewT
+			}
+			*lets = append(*lets, fmt.Sprintf("let %s : %s := %s;", l.Name, lt, v.expr))
 			e.vars[l.Name] = val{typ: v.typ, expr: l.Name}
 			return
 		}
@@ -487,8 +618,31 @@ func (e *env) assign(lhs ast.Expr, v val, lets *[]string) {
 			*lets = append(*lets, fmt.Sprintf("let %s : %s := %s;", dst[i].expr, leanType[dst[i].typ], asScalar(src[i])))
 		}
 		e.vars[l.Name] = nv
-	case *ast.SelectorExpr:
-		cur := e.expr(l)
+	case *ast.SelectorExpr, *ast.IndexExpr:
+		if ix, ok := lhs.(*ast.IndexExpr); ok {
+			if base := e.expr(ix.X); base.typ == "segs" {
+				// `ss[i] = Segment{…}`: List.set (outside the list: a Go panic; here no change)
+				idx := e.expr(ix.Index)
+				if idx.typ != "int" || v.typ != "Segment" || !isVarName(base.expr) || identName(ix.X) != base.expr {
+					refuse("element assignment")
+				}
+				*lets = append(*lets, fmt.Sprintf("let %s : %s := %s.set (Int.toNat %s) (%s, %s);", base.expr, leanType["segs"],
+					base.expr, idx.expr, v.fields["E0"].expr, v.fields["E1"].expr))
+				return
+			}
+		}
+		if ix, ok := lhs.(*ast.IndexExpr); ok {
+			if base := e.expr(ix.X); base.typ == "lens" {
+				// `ret[k] = r.M()` on a Regions value seen through the view of M
+				idx := e.expr(ix.Index)
+				if idx.typ != "int" || v.typ != "elemval" || !isVarName(base.expr) || identName(ix.X) != base.expr {
+					refuse("element assignment")
+				}
+				*lets = append(*lets, fmt.Sprintf("let %s : List %s := %s.set (Int.toNat %s) %s;", base.expr, e.viewT, base.expr, idx.expr, v.expr))
+				return
+			}
+		}
+		cur := e.expr(lhs)
 		if cur.typ != v.typ && !(cur.typ == "bool" && v.typ == "prop") {
 			refuse("field assignment of %s to %s", v.typ, cur.typ)
 		}
@@ -572,6 +726,11 @@ func (e *env) blockK(stmts []ast.Stmt, k func(en *env) string) string {
 		return k(e)
 	}
 	s, rest := stmts[0], stmts[1:]
+	if e.ext != nil {
+		if out, ok := e.ext(e, stmts, k); ok {
+			return out
+		}
+	}
 	switch n := s.(type) {
 	case *ast.ReturnStmt:
 		if k != nil {
@@ -590,6 +749,23 @@ func (e *env) blockK(stmts []ast.Stmt, k func(en *env) string) string {
 				parts[i] = asBool(v)
 			case "loc":
 				parts[i] = asLoc(v)
+			case "Segment":
+				if v.typ != "Segment" {
+					refuse("return of %s for a Segment", v.typ)
+				}
+				parts[i] = "(" + v.fields["E0"].expr + ", " + v.fields["E1"].expr + ")"
+			case "segs":
+				if v.typ != "segs" {
+					refuse("return of %s for a []Segment", v.typ)
+				}
+				parts[i] = v.expr
+			case "lens":
+				if v.typ != "lens" {
+					refuse("return of %s for a Regions", v.typ)
+				}
+				parts[i] = v.expr
+			default:
+				refuse("result type %s", e.results[i])
 			}
 		}
 		if len(parts) == 1 {
@@ -748,6 +924,18 @@ func (e *env) blockK(stmts []ast.Stmt, k func(en *env) string) string {
 			closing += ")"
 		}
 		return out + e.clone().block(def) + closing
+	case *ast.IncDecStmt:
+		cur := e.expr(n.X)
+		if cur.typ != "int" {
+			refuse("++ / -- on %s", cur.typ)
+		}
+		op := "+"
+		if n.Tok == token.DEC {
+			op = "-"
+		}
+		var lets []string
+		e.assign(n.X, val{typ: "int", expr: fmt.Sprintf("(%s %s 1)", cur.expr, op)}, &lets)
+		return strings.Join(lets, "\n  ") + "\n  " + e.blockK(rest, k)
 	}
 	refuse("statement %T", s)
 	return ""
